@@ -175,6 +175,9 @@ impl fmt::Display for Style {
         if self.ansi_term_style.is_dimmed {
             words.push("dim".to_string());
         }
+        if self.ansi_term_style.is_hidden {
+            words.push("hidden".to_string());
+        }
         if self.ansi_term_style.is_italic {
             words.push("italic".to_string());
         }
